@@ -1270,10 +1270,11 @@ func (s *Scanner) switchToComment() {
 
 func stateAnyCommentStart(s *Scanner, c byte) state {
 	if c != '#' {
-		// any symbol inline user comment
+		// any symbol inline user comment; an empty comment ends right here
+		// with its line, it doesn't go on in the next one.
 		s.annotation = annotationNone
 		s.step = stateInlineComment
-		return scanContinue
+		return stateInlineComment(s, c)
 	} else if s.index < s.dataSize && s.data[s.index] == '#' { // third #
 		s.annotation = annotationNone
 		s.step = stateMultiLineComment
